@@ -35,6 +35,11 @@ def pool(logic, tier):
             spaces.nary_ctl()[::2]
     fs = fs + special_forms(logic)
     extra = [subst(f, {'p': 'Ap', 'q': 'p_q'}) for f in fs[:300]]
+    # atoms whose names are an operator word glued to a name, or differ only in letter case
+    glue = [('ap', x) for x in ('notp', 'AXp', 'EGp', 'Fq', 'Xp', 'pandq', 'porq', 'pUq', 'P', 'Q', 'Start',
+                                'start', 'notP', 'Notp', 'p_', '_p', 'pq', 'qp')]
+    small = [f for f in fs if spaces.size_of(f) <= 1][:160]
+    extra += glue + [subst(f, {'p': 'P'}) for f in small] + [subst(f, {'q': 'Q', 'p': 'notp'}) for f in small[:80]]
     out = []
     seen = set()
     for f in fs + extra:
@@ -184,7 +189,9 @@ def run_shard(shard, tier, seed, acc):
     if kind == 'cross':
         # a mix: the smallest formulas, every n-ary / prefix-related shape, then a stride of the rest
         nary_like = [t for t in P if t[0] in ('and', 'or') and len(t) >= 4][:120]
-        core = P[:160] + nary_like + special_forms(lg)[:60]
+        gluey = [t for t in P if any(a in repr(t) for a in ("'notp'", "'AXp'", "'EGp'", "'P'", "'Start'", "'start'",
+                                                           "'pandq'", "'Fq'", "'Xp'"))][:120]
+        core = P[:160] + nary_like + special_forms(lg)[:60] + gluey
         rest = [t for t in P[160:] if t not in set(core)]
         core = core + rest[::max(1, len(rest) // 120)][:120]
         seen_core = set()
